@@ -162,6 +162,24 @@ func (p *MinQueriesPlanner) generatePlans(ctx *PlanningContext, query *ast.Query
 			Wrapper:        ast.SelectionSet{},
 		}}
 		addStep := func(payload *newQueryPlanStepPayload) {
+			// nested fragments and repeated fields can send several parts of one selection to the same service
+			// at the same insertion point. They have to travel in one request: a root field must reach its
+			// service exactly once (a second request would run a mutation twice).
+			for _, pending := range newSteps {
+				if pending.Parent == payload.Parent && pending.Location == payload.Location &&
+					pending.ParentType == payload.ParentType && sameInsertionPoint(pending.InsertionPoint, payload.InsertionPoint) {
+					pending.SelectionSet = appendNewSelections(pending.SelectionSet, payload.SelectionSet)
+					for _, defn := range payload.Fragments {
+						if existing := pending.Fragments.ForName(defn.Name); existing == nil {
+							pending.Fragments = append(pending.Fragments, defn)
+						} else if existing != defn {
+							// both payloads carry a part of the same fragment
+							existing.SelectionSet = appendNewSelections(existing.SelectionSet, defn.SelectionSet)
+						}
+					}
+					return
+				}
+			}
 			newSteps = append(newSteps, payload)
 		}
 
@@ -214,7 +232,8 @@ func (p *MinQueriesPlanner) generatePlans(ctx *PlanningContext, query *ast.Query
 					step:           step,
 					insertionPoint: payload.InsertionPoint,
 					plan:           payload.Plan,
-					wrapper:        payload.Wrapper,
+					// the selection of the payload is already wrapped in the fragments it was found under
+					wrapper: ast.SelectionSet{},
 				})
 				if err != nil {
 					return nil, err
@@ -254,6 +273,47 @@ func (p *MinQueriesPlanner) generatePlans(ctx *PlanningContext, query *ast.Query
 
 	// return the final plan
 	return plans, nil
+}
+
+// appendNewSelections returns the selections of target followed by those of source that target does not
+// already hold (compared by their printed form), without modifying either
+func appendNewSelections(target ast.SelectionSet, source ast.SelectionSet) ast.SelectionSet {
+	result := append(ast.SelectionSet{}, target...)
+	seen := Set{}
+	for _, selection := range target {
+		if key, ok := selectionKey(selection); ok {
+			seen.Add(key)
+		}
+	}
+	for _, selection := range source {
+		key, ok := selectionKey(selection)
+		if ok && seen.Has(key) {
+			continue
+		}
+		seen.Add(key)
+		result = append(result, selection)
+	}
+	return result
+}
+
+// selectionKey prints a selection (alias, arguments, directives and sub-selections included)
+func selectionKey(selection ast.Selection) (string, bool) {
+	printed, err := graphql.PrintQuery(&ast.QueryDocument{
+		Operations: ast.OperationList{{Operation: ast.Query, SelectionSet: ast.SelectionSet{selection}}},
+	})
+	return printed, err == nil
+}
+
+func sameInsertionPoint(a, b []string) bool {
+	if len(a) != len(b) {
+		return false
+	}
+	for i := range a {
+		if a[i] != b[i] {
+			return false
+		}
+	}
+	return true
 }
 
 type extractSelectionConfig struct {
